@@ -127,7 +127,7 @@ func vfRunScenario(t *testing.T, rec *vfRec, sc map[string]any) {
 	}
 	rec.emit("reset", "id", id, "mode", mode, "unicast", vfBool(cfg, "unicast", false),
 		"min", vfInt(cfg, "min", 200000), "max", vfInt(cfg, "max", 600000), "cfglife", life0,
-		"fwd", vfBool(cfg, "fwd", true), "nif", nif)
+		"fwd", vfBool(cfg, "fwd", true), "nif", nif, "quiet", vfBool(cfg, "quiet", false))
 
 	vm := vfNewMetrics(w)
 	mm := NewMetrics(vm, "vf", time.Time{}, st, parsed.Interfaces)
